@@ -152,6 +152,10 @@ def check(ctx):
     n = core.reuse(ctx, c03, ["C03.a", "C03.b"], "C04.c")
     ctx.floor("C04.c", n, 20, "shared C03.a/C03.b obligations")
 
+    # ---- C04.f a run postponed by recursion is handed its own event's metadata (shared with C03.e / C12.a) ----
+    nf = core.adopt(ctx, c03, lambda o: o["rule"] == "C03.e", "C04.f")
+    ctx.floor("C04.f", nf, 12, "shared claim-order obligations (C03.e)")
+
     # ---- C04.d who can set the flag (A9) ----
     trackers = A.tracker_types(prog)
     private_types = sorted(trackers) + [p for p in prog.adts if re.search(r"(EventData|SystemCommandStorage|DataEntityCounter)$", p)]
